@@ -1,19 +1,50 @@
-(* C08 — A truncated encoding is never accepted.  Theorems only. *)
-From QV Require Import Reader ReaderProofs Message MessageProofs Value ParseOpt WireRefute.
+(* C08 — A truncated encoding is never accepted.  Theorems only; proofs in
+   theories/MessageProofs.v, PrefixProofs.v. *)
+From QV Require Import Reader ReaderProofs Message MessageProofs Value GenDec WireDefs PrefixProofs ParseOpt WireTop WireRefute.
 Local Open Scope N_scope.
 
 (* messages: every strict prefix of a valid frame is rejected, for every read schedule *)
-Theorem C08_message_prefix : forall m k sch r s', valid_msg m -> (k < List.length (enc_msg m))%nat ->
+Theorem C08_message : forall m k sch r s', valid_msg m -> (k < List.length (enc_msg m))%nat ->
   read_msg {| s_data := firstn k (enc_msg m); s_sched := sch |} = Some (r, s') -> exists e, r = Err e.
 Proof. exact read_msg_prefix_rejected. Qed.
-Print Assumptions C08_message_prefix.
+Print Assumptions C08_message.
+
+(* dynamic values *)
+Theorem C08_value : forall c v k, string_reader_drops_err c = false -> wf_dval v ->
+  (k < List.length (enc_dval v))%nat -> fails (new_value parse_opt c (firstn k (enc_dval v))).
+Proof. exact new_value_prefix_top. Qed.
+Print Assumptions C08_value.
+
+(* typed data of any signature through the signature-driven reader *)
+Theorem C08_sig_read : forall c v t fuel k, string_reader_drops_err c = false ->
+  good_ty t = true -> has_ty v t = true -> (dyn_depth v <= fuel)%nat ->
+  (k < List.length (spec_enc v))%nat -> fails (sig_read parse_opt c fuel t (firstn k (spec_enc v))).
+Proof. exact sig_read_prefix_top. Qed.
+Print Assumptions C08_sig_read.
+
+(* Go values through the reflection decoder *)
+Theorem C08_refl_dec : forall c v t k,
+  refl_struct_ignores_err c = false -> refl_neg_len_panics c = false -> refl_drop8 c = false ->
+  good_ty t = true -> has_ty v t = true -> refl_domain t = true -> lens_ok v = true ->
+  (k < List.length (spec_enc v))%nat -> fails (refl_dec c tval_eqb t (firstn k (spec_enc v))).
+Proof. exact refl_dec_prefix_top. Qed.
+Print Assumptions C08_refl_dec.
+
+(* generated decoders: meta-object, object reference, service info, any signature without "m" *)
+Theorem C08_generated : forall t v k, good_ty t = true -> has_ty v t = true -> dyn_depth v = 0%nat ->
+  (k < List.length (spec_enc v))%nat -> fails (gen_dec parse_opt t (firstn k (spec_enc v))).
+Proof. exact gen_dec_prefix. Qed.
+Print Assumptions C08_generated.
 
 Theorem C08_refuted_string_reader :
   exists r, sig_read parse_opt only_string_reader 0 (TStruct "A" [("a"%string, TS SStr)]) (firstn 5 (spec_enc hello)) = ROk r.
-Proof. exact sig_read_prefix_refuted. Qed.
+Proof. exact WireRefute.sig_read_prefix_refuted. Qed.
 Print Assumptions C08_refuted_string_reader.
-
 Theorem C08_refuted_struct_errors :
   exists r, refl_dec only_struct_err tval_eqb (TTuple [TS SI32; TS SI32]) (firstn 4 (spec_enc (VTup [VNum 4 1; VNum 4 2]))) = ROk r.
-Proof. exact refl_dec_prefix_refuted. Qed.
+Proof. exact WireRefute.refl_dec_prefix_refuted. Qed.
 Print Assumptions C08_refuted_struct_errors.
+
+Example C08_nonvacuous :
+  good_ty ex_ty = true /\ has_ty ex_val ex_ty = true /\ dyn_depth ex_val = 1%nat /\ (List.length (spec_enc ex_val) = 39)%nat.
+Proof. exact ex_val_ok. Qed.
